@@ -17,3 +17,119 @@ mod search {
         }
     }
 }
+
+// ---------------------------------------------------------------------------------------------
+// NATIVE FAILING-INPUT SEARCH for C04 (DHT reply matching): a real DhtNetworkManager on a local transport
+// bound to port 0 (offline), pending entries inserted by hand, then random replies -- unknown ids, wrong
+// connection, forged `source` field, missing result, duplicates -- checked against a model of the statement:
+// a pending request completes only with a reply that carries its id, arrives on the connection of a peer it
+// was sent to, and carries a result; at most once; nothing else is affected.
+// ---------------------------------------------------------------------------------------------
+#[cfg(test)]
+mod search_c04 {
+    use super::*;
+    use crate::transport_handle::{TransportConfig, TransportHandle};
+
+    struct Rng(u64);
+    impl Rng {
+        fn next(&mut self) -> u64 {
+            self.0 ^= self.0 << 13;
+            self.0 ^= self.0 >> 7;
+            self.0 ^= self.0 << 17;
+            self.0
+        }
+        fn below(&mut self, n: u64) -> u64 {
+            self.next() % n
+        }
+    }
+
+    async fn make_manager(name: &str) -> DhtNetworkManager {
+        let node_config = NodeConfig::builder().peer_id(name.to_string()).listen_port(0).ipv6(false).build().expect("node config");
+        let transport = Arc::new(
+            TransportHandle::new(TransportConfig {
+                peer_id: name.to_string(),
+                listen_addr: node_config.listen_addr,
+                enable_ipv6: node_config.enable_ipv6,
+                connection_timeout: node_config.connection_timeout,
+                stale_peer_threshold: node_config.stale_peer_threshold,
+                max_connections: node_config.max_connections,
+                production_config: node_config.production_config.clone(),
+                event_channel_capacity: crate::DEFAULT_EVENT_CHANNEL_CAPACITY,
+            })
+            .await
+            .expect("transport"),
+        );
+        let config = DhtNetworkConfig {
+            local_peer_id: name.to_string(),
+            dht_config: DHTConfig::default(),
+            node_config,
+            request_timeout: Duration::from_secs(5),
+            max_concurrent_operations: 10,
+            replication_factor: 3,
+            enable_security: false,
+        };
+        DhtNetworkManager::new(transport, None, config).await.expect("manager")
+    }
+
+    #[test]
+    fn verif_search_c04() {
+        let seed: u64 = std::env::var("VERIF_SEED").ok().and_then(|s| s.parse().ok()).unwrap_or(0);
+        let rounds: usize = std::env::var("VERIF_SEARCH_ROUNDS").ok().and_then(|s| s.parse().ok()).unwrap_or(300);
+        let rt = tokio::runtime::Builder::new_multi_thread().worker_threads(2).enable_all().build().expect("runtime");
+        rt.block_on(async {
+            let mgr = make_manager("verif_search_c04_node").await;
+            let mut r = Rng(0x9e37_79b9_7f4a_7c15 ^ seed.wrapping_mul(0x1000_0000_01b3) | 1);
+            let peers = ["aa11".repeat(16), "bb22".repeat(16), "cc33".repeat(16)];
+            for round in 0..rounds {
+                mgr.active_operations.lock().unwrap().clear();
+                // three pending requests: each sent to one peer, optionally with a second contacted node
+                let ids = ["req-A", "req-B", "req-C"];
+                let mut rx = Vec::new();
+                let mut sent_to: Vec<Vec<String>> = Vec::new();
+                for id in ids {
+                    let (tx, rxi) = oneshot::channel();
+                    let main = peers[r.below(2) as usize].clone();
+                    let mut contacted = vec![main.clone()];
+                    if r.below(3) == 0 {
+                        contacted.push(peers[2].clone());
+                    }
+                    mgr.active_operations.lock().unwrap().insert(
+                        id.to_string(),
+                        DhtOperationContext { operation: DhtNetworkOperation::Ping, peer_id: main, started_at: Instant::now(), timeout: Duration::from_secs(5), contacted_nodes: contacted.clone(), response_tx: Some(tx) },
+                    );
+                    rx.push(rxi);
+                    sent_to.push(contacted);
+                }
+                let mut done = [false; 3];
+                let mut hist = String::new();
+                for _ in 0..(1 + r.below(8)) {
+                    let which = r.below(4) as usize; // 3 = unknown id
+                    let id = if which < 3 { ids[which] } else { "req-unknown" };
+                    let sender = peers[r.below(3) as usize].clone();
+                    let claimed = peers[r.below(3) as usize].clone();
+                    let with_result = r.below(5) != 0;
+                    let msg = DhtNetworkMessage {
+                        message_id: id.to_string(), source: claimed.clone(), target: None, message_type: DhtMessageType::Response, payload: DhtNetworkOperation::Ping,
+                        result: if with_result { Some(DhtNetworkResult::PongReceived { responder: sender.clone(), latency: Duration::from_millis(1) }) } else { None },
+                        timestamp: 0, ttl: 10, hop_count: 0,
+                    };
+                    hist.push_str(&format!("reply(id={} connection={} claimed_source={} result={}) ", id, &sender[..4], &claimed[..4], with_result));
+                    mgr.handle_dht_response(&msg, &sender).await.expect("handler returns");
+                    for k in 0..3 {
+                        let expect_now = which == k && !done[k] && with_result && sent_to[k].contains(&sender);
+                        let got = rx[k].try_recv().is_ok();
+                        if got != expect_now {
+                            panic!("VERIF-SEARCH-HIT C04/dht/completed_only_by_a_reply_with_its_id_from_the_contacted_peer round={} request={} sent_to={:?} delivered={} expected={} history=[{}]", round, ids[k], sent_to[k].iter().map(|p| &p[..4]).collect::<Vec<_>>(), got, expect_now, hist);
+                        }
+                        if got {
+                            done[k] = true;
+                        }
+                    }
+                    if mgr.active_operations.lock().unwrap().len() != 3 {
+                        panic!("VERIF-SEARCH-HIT C04/dht/a_reply_never_affects_another_pending_request round={} pending table size changed history=[{}]", round, hist);
+                    }
+                }
+            }
+        });
+    }
+}
